@@ -361,7 +361,8 @@ def run_check(check, tier, seed):
         t['twin'] = True
     all_items = items + twins
     results = run_pool(check.__name__, all_items, hard_timeout=getattr(check, 'HARD_TIMEOUT', None))
-    # second pass: items with an `unknown` solver answer are re-run once with a 4x larger per-query timeout
+    # second pass: items with an `unknown` solver answer are re-run once with a larger per-query timeout (2x in the
+    # quick tier, 4x in the thorough tier; VERIF_RETRY_FACTOR overrides)
     # (solver timeouts depend on machine load); their earlier results are replaced
     retry_idx = sorted(set(r['_item'] for r in results if r.get('verdict') == 'unknown' and '_item' in r
                            and not all_items[r['_item']].get('twin') and not all_items[r['_item']].get('no_retry')))
@@ -370,10 +371,11 @@ def run_check(check, tier, seed):
     retried = 0
     if retry_idx and os.environ.get('VERIF_NO_RETRY') is None:
         base_to = getattr(check, 'DEFAULT_TIMEOUT_MS', 5000)
+        factor = int(os.environ.get('VERIF_RETRY_FACTOR', '2' if tier == 'quick' else '4'))
         again = []
         for i in retry_idx:
             it = dict(all_items[i])
-            it['timeout_ms'] = 4 * int(it.get('timeout_ms', base_to))
+            it['timeout_ms'] = factor * int(it.get('timeout_ms', base_to))
             again.append(it)
         res2 = run_pool(check.__name__, again, nworkers=max(2, NWORKERS // 2), hard_timeout=2 * (getattr(check, 'HARD_TIMEOUT', None) or HARD_TIMEOUT))
         keep = [r for r in results if r.get('_item') not in set(retry_idx)]
